@@ -45,11 +45,22 @@ pub struct Env {
 }
 
 impl Env {
+    /// what a hook left in the context: written into the deadline AND into the trace context (a
+    /// hook may change any field); a context in which the two disagree reads as 999_999
     fn marker(&self, ctx: &context::Context) -> u64 {
-        ctx.deadline.checked_duration_since(self.base).map(|d| d.as_secs()).unwrap_or(0)
+        let d = ctx.deadline.checked_duration_since(self.base).map(|d| d.as_secs()).unwrap_or(0);
+        let t = u128::from(ctx.trace_context.trace_id) as u64;
+        let sampled = ctx.trace_context.sampling_decision == tarpc::trace::SamplingDecision::Sampled;
+        if d == t && sampled == (d != 0) {
+            d
+        } else {
+            999_999
+        }
     }
     fn set_marker(&self, ctx: &mut context::Context, id: usize) {
         ctx.deadline = self.base + Duration::from_secs(1000 + id as u64);
+        ctx.trace_context.trace_id = tarpc::trace::TraceId::from(1000 + id as u128);
+        ctx.trace_context.sampling_decision = tarpc::trace::SamplingDecision::Sampled;
     }
 }
 
@@ -165,6 +176,8 @@ type Out = Option<Result<u32, ServerError>>;
 fn run0<S: Serve<Req = u32, Resp = u32>>(s: S, env: &Rc<Env>) -> Out {
     let mut ctx = context::current();
     ctx.deadline = env.base;
+    ctx.trace_context.trace_id = tarpc::trace::TraceId::from(0u128);
+    ctx.trace_context.sampling_decision = tarpc::trace::SamplingDecision::Unsampled;
     let f = s.serve(ctx, 7);
     futures::pin_mut!(f);
     drive(f, 1000)
@@ -205,6 +218,47 @@ macro_rules! wrap_level {
 fn wrap_end<S: Serve<Req = u32, Resp = u32>>(s: S, _kinds: &[u8], _nb: usize, _na: usize, env: &Rc<Env>) -> Out {
     run0(s, env)
 }
+
+/// before-part `i` as a closure (tarpc implements BeforeRequest for `FnMut(&mut Context, &Req) -> Fut`):
+/// the same behaviour as `B(i, env)`
+fn cl(i: usize, env: Rc<Env>) -> impl FnMut(&mut context::Context, &u32) -> std::future::Ready<Result<(), ServerError>> + Clone {
+    move |ctx: &mut context::Context, _req: &u32| {
+        env.log.borrow_mut().push(Entry::Before(i, env.marker(ctx)));
+        std::future::ready(match env.before[i] {
+            BeforeB::Ok => Ok(()),
+            BeforeB::Mutate => {
+                env.set_marker(ctx, i);
+                Ok(())
+            }
+            BeforeB::Fail => Err(err("before", i)),
+        })
+    }
+}
+macro_rules! wrap_level_closures {
+    ($name:ident, $next:ident) => {
+        fn $name<S: Serve<Req = u32, Resp = u32>>(s: S, kinds: &[u8], nb: usize, na: usize, env: &Rc<Env>) -> Out {
+            let Some(k) = kinds.first() else { return run0(s, env) };
+            let rest = &kinds[1..];
+            match k {
+                0 => $next(s.before(cl(nb, env.clone())), rest, nb + 1, na, env),
+                1 => $next(s.after(A(na, env.clone())), rest, nb, na + 1, env),
+                2 => $next(s.before_and_after(BA(nb, na, env.clone())), rest, nb + 1, na + 1, env),
+                3 => $next(before().then(cl(nb, env.clone())).serving(s), rest, nb + 1, na, env),
+                4 => $next(before().then(cl(nb, env.clone())).then(cl(nb + 1, env.clone())).serving(s), rest, nb + 2, na, env),
+                _ => $next(
+                    before().then(cl(nb, env.clone())).then(B(nb + 1, env.clone())).then(cl(nb + 2, env.clone())).serving(s),
+                    rest,
+                    nb + 3,
+                    na,
+                    env,
+                ),
+            }
+        }
+    };
+}
+wrap_level_closures!(wrapc1, wrap_end);
+wrap_level_closures!(wrapc2, wrapc1);
+wrap_level_closures!(wrapc3, wrapc2);
 wrap_level!(wrap1, wrap_end);
 wrap_level!(wrap2, wrap1);
 wrap_level!(wrap3, wrap2);
@@ -352,13 +406,21 @@ pub fn run_c19(tier: Tier) -> i32 {
                               // twice: built by generic code (receiver type `S: Serve`), and - for
                               // the nestings written out in hooks_concrete.rs - chained directly on
                               // the concrete types
-                              for variant in 0u8..4 {
-                                let concrete_types = variant > 0;
+                              for variant in 0u8..5 {
+                                let concrete_types = variant > 0 && variant < 4;
                                 env.log.borrow_mut().clear();
                                 ZENV.with(|e| *e.borrow_mut() = Some(env.clone()));
                                 let out = std::panic::catch_unwind(std::panic::AssertUnwindSafe(|| {
                                     if concrete_types {
                                         concrete(kinds, &env, variant - 1)
+                                    } else if variant == 4 {
+                                        // (depth 3 only over the kinds that take a before-hook: the type
+                                        // instantiations are what costs compile time)
+                                        if kinds.len() == 3 && kinds.iter().any(|k| *k == 1) {
+                                            None
+                                        } else {
+                                            Some(wrapc3(Handler(env.clone()), kinds, 0, 0, &env))
+                                        }
                                     } else {
                                         Some(wrap3(Handler(env.clone()), kinds, 0, 0, &env))
                                     }
@@ -375,7 +437,7 @@ pub fn run_c19(tier: Tier) -> i32 {
                                     (kinds, &bs, &as_, handler_ok, variant).hash(&mut h);
                                     distinct.insert(h.finish());
                                 }
-                                let label = format!("nesting (innermost first) {kinds:?}{} before-parts {bs:?} after-parts {as_:?} handler_ok={handler_ok}", match variant { 0 => "", 1 => " chained on the concrete types", 2 => " chained on the concrete types, list hooks after the first zero-sized", _ => " chained on the concrete types, before-hooks zero-sized" });
+                                let label = format!("nesting (innermost first) {kinds:?}{} before-parts {bs:?} after-parts {as_:?} handler_ok={handler_ok}", match variant { 0 => "", 1 => " chained on the concrete types", 2 => " chained on the concrete types, list hooks after the first zero-sized", 3 => " chained on the concrete types, before-hooks zero-sized", _ => " with closures as before-hooks" });
                                 let got = match out {
                                     Err(_) => {
                                         failures.push(("C19-panic".to_string(), format!("{label}: {}", crate::mock::take_panic())));
@@ -431,7 +493,7 @@ pub fn run_c19(tier: Tier) -> i32 {
         distinct.len() as u64,
         &failures,
         json!({"nestings": nestings.len(), "nestings_skipped_over_part_cap": skipped, "part_cap": cap_parts}),
-        "every nesting of <=3 wrappers from {before(h), after(h), before_and_after(h), before().then(h1)[.then(h2)[.then(h3)]].serving(s)} around a recording handler (259 type instantiations built by generic code, and 106 of them - all nestings of depth <= 2, depth 3 over four wrapper kinds - also chained directly on the concrete types, so that method resolution is the one application code gets, plus variants of those in which the before-hooks (all of them, or all but the first of a list) are zero-sized values; no dynamic dispatch over tarpc types); for each nesting every assignment of behaviours: each before-part in {ok, ok+mutate ctx, fail}, each after-part in {keep, Ok->Err, Err->Ok}, handler in {Ok, Err}; nestings whose parts exceed the cap are listed as skipped; exact equality of the invocation log (who ran, order, context marker seen, result seen) and of the final Result with a reference interpreter",
+        "every nesting of <=3 wrappers from {before(h), after(h), before_and_after(h), before().then(h1)[.then(h2)[.then(h3)]].serving(s)} around a recording handler (259 type instantiations built by generic code, and 106 of them - all nestings of depth <= 2, depth 3 over four wrapper kinds - also chained directly on the concrete types, so that method resolution is the one application code gets, plus variants of those in which the before-hooks (all of them, or all but the first of a list) are zero-sized values, plus every nesting once more with closures as before-hooks; what a hook leaves in the context is written into the deadline, the trace id and the sampling decision together; no dynamic dispatch over tarpc types); for each nesting every assignment of behaviours: each before-part in {ok, ok+mutate ctx, fail}, each after-part in {keep, Ok->Err, Err->Ok}, handler in {Ok, Err}; nestings whose parts exceed the cap are listed as skipped; exact equality of the invocation log (who ran, order, context marker seen, result seen) and of the final Result with a reference interpreter",
         samples.into_inner().unwrap().into_iter().map(|c| json!({"case": c})).collect(),
     )
 }
